@@ -160,6 +160,257 @@ def subset_cases(universe, body="x"):
     return out
 
 
+# ------------------------------------------------------------------ pinned cases: run FIRST in every run, no randomness
+def pinned_cases():
+    """the classes every quick run must cover, enumerated: label shapes (dots, digits, dashes, zero padding, 09->10 and
+    099->100 bridges, mixed widths, numeric-only names, name 0, hosts that differ only in the suffix, several prefixes
+    under one suffix), body shapes (empty, differing only in trailing blanks / CR / one line anywhere, prefix of one
+    another, starting with a colon, holding `: `, very long), an unterminated final line, blanks around the label —
+    each in report, -c and -d mode under two hash seeds"""
+    out = []
+
+    def rr(per_host):
+        """round-robin interleaving that keeps every host's own order"""
+        recs, i = [], 0
+        hosts = list(per_host)
+        while any(i < len(per_host[h]) for h in hosts):
+            for h in hosts:
+                if i < len(per_host[h]):
+                    recs.append((h, per_host[h][i]))
+            i += 1
+        return recs
+
+    def add(tag, per_host, modes="cnd", stream="plain", fmt="%s: %s\n", unterminated=False):
+        recs = rr(per_host)
+        inp = "".join(fmt % r for r in recs).encode("latin-1")
+        if unterminated:
+            inp = inp[:-1]
+        for m in modes:
+            for seed in (0, 12345):
+                out.append({"stream": "unterminated" if unterminated else stream, "mode": m, "recs": recs, "input": inp,
+                            "hash_seed": seed, "pin": tag})
+
+    same = lambda hosts, body=("up",): {h: list(body) for h in hosts}
+    # labels
+    add("labels:dots-dashes-digits", same(["n1.dom", "n2.dom", "a-1", "a-2", "r2d2", "r2d3", "10.0.0.1", "10.0.0.2", "x.y_z-1"]))
+    add("labels:bridge-09-10", same(["n08", "n09", "n10", "n11", "n7"]))
+    add("labels:bridge-099-100", same(["n098", "n099", "n100", "n101", "n0998", "n0999", "n1000", "n1001"]))
+    add("labels:mixed-widths", same(["n1", "n01", "n001", "n2", "n02", "n002", "n3", "n010", "n10"]))
+    add("labels:numeric-only", same(["007", "008", "009", "010", "0", "1", "2", "00"]))
+    add("labels:suffix-only-differs", same(["n1-ib", "n1-eth", "n2-ib", "n2-eth", "n1", "n2", "n1-", "n2-"]))
+    add("labels:two-prefixes-one-suffix", same(["ca1-ib", "cb1-ib", "ca2-ib", "cb2-ib", "cb3-ib", "gw1-ib", "ca1"]))
+    add("labels:two-prefixes-no-suffix", same(["ca1", "cb1", "ca2", "cb2", "login"]))
+    add("labels:digits-inside-prefix", same(["r2d1", "r2d2", "r3d1", "r3d2", "a1b01x", "a1b02x"]))
+    add("labels:digit-free", same(["foo", "bar", "login", "a-b"]))
+    add("labels:long", same(["h" * 300 + "1", "h" * 300 + "2"]), modes="cn")       # (NAME_MAX: not as file names)
+    add("labels:case-and-underscore", same(["N1", "n1", "N2", "n2", "_x1", "_x2"]))
+    add("labels:big-numbers", same(["n999999999999998", "n999999999999999", "n1000000000000000", "m18446744073709551613"]))
+    # bodies: what must NOT be merged, and what must
+    add("bodies:trailing-blank-differs", {"a1": ["x"], "a2": ["x "], "a3": ["x\t"], "a4": ["x"], "a5": ["x  "]})
+    add("bodies:empty-vs-blank", {"a1": [""], "a2": [" "], "a3": [""], "a4": ["", ""], "a5": []} | {"a5": ["  "]})
+    add("bodies:cr-differs", {"a1": ["x\r"], "a2": ["x"], "a3": ["x\r"], "a4": ["\r"], "a5": [""]})
+    add("bodies:same-last-line", {"a1": ["one", "done"], "a2": ["two", "done"], "a3": ["one", "done"], "a4": ["", "done"]})
+    add("bodies:same-first-line", {"a1": ["hdr", "1"], "a2": ["hdr", "2"], "a3": ["hdr", "1"]})
+    add("bodies:middle-differs", {"a1": ["a", "b", "c"], "a2": ["a", "B", "c"], "a3": ["a", "b", "c"], "a4": ["a", "", "c"]})
+    add("bodies:prefix-of-another", {"a1": ["a", "b"], "a2": ["a", "b", "c"], "a3": ["a"], "a4": ["a", "b"], "a5": ["a", "b", ""]})
+    add("bodies:permuted-lines", {"a1": ["a", "b"], "a2": ["b", "a"], "a3": ["a", "b"]})
+    add("bodies:repeated-lines", {"a1": ["a", "a"], "a2": ["a"], "a3": ["a", "a", "a"], "a4": ["a", "a"]})
+    add("bodies:leading-colon", {"n1": ["::1 localhost", ":wq"], "n2": [" : note", ": ${X:=1}"], "n3": ["::1 localhost", ":wq"],
+                                  "n4": [":", "::"]})
+    add("bodies:colon-blank-inside", {"n1": ["eth0: flags=1", "k: v: w"], "n2": ["eth0: flags=1", "k: v: w"], "n3": ["a :b", "n9: x"]})
+    add("bodies:label-like", {"n1": ["n2: x"], "n2": ["x"], "n3": ["n2: x"]})
+    add("bodies:very-long", {"n1": ["y" * 100000, "z"], "n2": ["y" * 100000, "z"], "n3": ["y" * 99999, "z"]})
+    add("bodies:many-lines", {"n1": [str(i) for i in range(300)], "n2": [str(i) for i in range(300)],
+                              "n3": [str(i) for i in range(299)] + ["x"]})
+    add("bodies:binary", {"n1": ["\x01\x7f\xff\xe9"], "n2": ["\x01\x7f\xff\xe9"], "n3": ["\x01\x7f\xff\xe8"]})
+    add("bodies:divider-look-alike", {"n1": ["---------------"], "n2": ["-----------------"], "n3": ["- - -"]})
+    # the line format
+    add("format:no-blank-after-colon", {"n1": ["x", "y"], "n2": ["x", "y"]}, fmt="%s:%s\n")
+    add("format:blanks-around-label", {"n1": ["x"], "n2": ["x"], "n3": ["y"]}, fmt="  %s \t: %s\n")
+    add("format:two-blanks-after-colon", {"n1": [" x"], "n2": [" x"], "n3": ["x"]}, fmt="%s: %s\n")
+    add("format:crlf", {"n1": ["x\r", "y\r"], "n2": ["x\r", "y\r"], "n3": ["x\r", "z\r"]})
+    add("format:unterminated-last", {"n1": ["x", "y"], "n2": ["x", "y"], "n3": ["x", "tail"]}, unterminated=True)
+    add("format:unterminated-only-line", {"n1": ["x"]}, unterminated=True)
+    add("format:one-host-one-line", {"n1": ["x"]})
+    return out
+
+
+DLABELS = ["x", "./x", "a/b", "../esc", ".", "..", "x/", "a//b", ".hid", "..two", "y"]
+
+
+def option_cases(ctx, script, judge, cov, dist):
+    """the option block (-h, -c, -d DIR, -f in every combination x DIR an existing directory / missing / a plain file /
+    named `0`) against `Dshbak/Options.lean: plan`, the per-file output against the specification, and -d with labels
+    that are not plain file names (F19-DIRLABEL)"""
+    import shutil
+    work = os.path.join(ctx.scratch, "dshbak-opt")
+    shutil.rmtree(work, ignore_errors=True)
+    os.makedirs(work)
+    recs = [("n1", "a"), ("n2", "a"), ("n10", "b"), ("n1", "c"), ("n2", "c")]
+    inp = "".join("%s: %s\n" % r for r in recs).encode()
+    lines_of = {}
+    for t, b in recs:
+        lines_of.setdefault(t, []).append(b)
+    env = {"PATH": "/usr/bin:/bin", "PERL_HASH_SEED": "0", "PERL_PERTURB_KEYS": "0"}
+
+    def prepare(cd, dname, state):
+        os.makedirs(cd)
+        if dname is not None:
+            tgt = os.path.join(cd, dname) if dname else None
+            if tgt and state == "dir":
+                os.makedirs(tgt)
+            elif tgt and state == "notdir":
+                open(tgt, "w").close()
+
+    def observe(cd, argv, data, dname):
+        try:
+            p = subprocess.run(["perl", script] + argv, input=data, stdout=subprocess.PIPE, stderr=subprocess.PIPE, env=env,
+                               cwd=cd, timeout=60)
+        except subprocess.TimeoutExpired:
+            return {"rc": "timeout", "plan": "timeout", "files": {}, "err": "", "out": ""}
+        err = p.stderr.decode("latin-1")
+        out = p.stdout.decode("latin-1")
+        files = {}
+        for r, ds, fs in os.walk(cd):
+            for f in fs:
+                fp = os.path.join(r, f)
+                files[os.path.relpath(fp, cd)] = open(fp, "rb").read().decode("latin-1")
+        return {"rc": p.returncode, "err": err[-300:], "out": out, "files": files}
+
+    # ---- is F19-DIRZERO repaired?  is F19-DIRLABEL repaired?  (probed: the model mirrors either form)
+    cd = os.path.join(work, "probe0")
+    prepare(cd, "0", "dir")
+    r0 = observe(cd, ["-d", "0"], inp, "0")
+    fix_d0 = 1 if any(k.startswith("0/") for k in r0["files"]) else 0
+    cd = os.path.join(work, "probe1")
+    prepare(cd, "D", "dir")
+    r1 = observe(cd, ["-d", "D"], b"a/b: x\nz: y\n", "D")
+    fix_label = r1["rc"] not in (0, "timeout") and not r1["files"]
+    dist["script_form"] += ("+DIRZERO-repaired" if fix_d0 else "") + ("+DIRLABEL-repaired" if fix_label else "")
+    # ---- the option matrix
+    k = 0
+    olines, ocases = [], []
+    for flags in ("", "c", "h", "f", "cf", "ch", "hf", "chf"):
+        for dname, state in ((None, "dir"), ("out", "dir"), ("out", "missing"), ("out", "notdir"), ("new/deep", "missing"),
+                             ("0", "dir"), ("0", "missing"), ("", "missing"), ("00", "dir"), ("0.0", "missing")):
+            for order in (0, 1):
+                argv = ["-" + f for f in flags]
+                if dname is not None:
+                    argv = (argv + ["-d", dname]) if order == 0 else (["-d", dname] + argv)
+                elif order == 1:
+                    continue
+                cd = os.path.join(work, "o%d" % k)
+                k += 1
+                prepare(cd, dname, state)
+                ocases.append((flags, dname, state, argv, cd))
+                olines.append("o %d %s %s %s\n" % (fix_d0, flags or "-", "~" if dname is None else (hx(dname) if dname else "-"),
+                                                   state))
+    answers = ctx.model("dshbak", "".join(olines), args=["model"])
+    dist["option_plans"] = {}
+    for (flags, dname, state, argv, cd), want in zip(ocases, answers):
+        r = observe(cd, argv, inp, dname)
+        cov["evaluations"] += 1
+        blocks, _ = parse_report(r["out"])
+        infiles = {kf[len(dname) + 1:]: v for kf, v in r["files"].items() if dname and kf.startswith(dname + "/")}
+        if r["rc"] == "timeout":
+            got = "timeout"
+        elif r["rc"] == 0 and "Usage:" in r["err"] and not r["out"]:
+            got = "usage"
+        elif r["rc"] == 1 and "Fatal" in r["err"] and not r["out"]:
+            got = "fatal"
+        elif r["rc"] == 0 and infiles and not r["out"]:
+            got = "perfile%d" % (0 if state == "dir" else 1)
+        elif r["rc"] == 0 and len(blocks) == 2:
+            got = "coalesced"
+        elif r["rc"] == 0 and len(blocks) == 3:
+            got = "report"
+        else:
+            got = "other(rc=%s)" % r["rc"]
+        dist["option_plans"][got] = dist["option_plans"].get(got, 0) + 1
+        case = {"argv": argv, "dir_state": state, "input_text": inp.decode(), "cmd": "perl scripts/dshbak %s < input" % " ".join(argv)}
+        if got != want:
+            ctx.disagreement("dshbak option block vs Dshbak/Options.lean", "argv %r (DIR %s): real %s, model %s; stderr %r" %
+                             (argv, state, got, want, r["err"][-120:]), case)
+        # ---- oracle (what the property text says, independent of the model)
+        wants_files = dname is not None and "h" not in flags and "c" not in flags and (state == "dir" or ("f" in flags and state == "missing"))
+        if got in ("usage", "fatal", "timeout") or got.startswith("other"):
+            if got == "timeout" or got.startswith("other"):
+                ctx.offender("options:garbled", "argv %r: %s %r" % (argv, got, r["err"][-150:]), {"case": case})
+            elif r["files"] and any(v for kf, v in r["files"].items()) and got == "fatal":
+                ctx.offender("options:refused-after-writing", "argv %r: exit 1 but files were written: %r" %
+                             (argv, sorted(r["files"])[:5]), {"case": case})
+            continue
+        if wants_files:
+            want_files = {t: "".join(l + "\n" for l in ls) for t, ls in lines_of.items()}
+            if infiles != want_files:
+                sig = "per-file:-d-ignored(name-is-false-in-perl)" if (dname in ("0", "") and not infiles) else "per-file:files"
+                ctx.offender(sig, "argv %r: -d %r given, expected one file per host %r, found %r (stdout %d bytes)" %
+                             (argv, dname, sorted(want_files), sorted(r["files"]), len(r["out"])), {"case": case})
+        elif got == "report" or got == "coalesced":
+            got_blocks = {h: b for h, b in blocks}
+            if got == "report" and got_blocks != lines_of:
+                ctx.offender("regroup:report", "argv %r: report %r" % (argv, blocks[:4]), {"case": case})
+            if got == "coalesced" and got_blocks != {"n[1-2]": ["a", "c"], "n10": ["b"]}:
+                ctx.offender("regroup:coalesced", "argv %r: report %r" % (argv, blocks[:4]), {"case": case})
+            if "c" in flags and got != "coalesced":
+                ctx.offender("options:-c-ignored", "argv %r: %s" % (argv, got), {"case": case})
+    # ---- -d with labels that are not plain file names
+    import itertools
+    combos = [list(c) for c in itertools.combinations(DLABELS, 2)] + [DLABELS]
+    fl = ctx.model("dshbak", "f %s\n" % ",".join(hx(t) for t in DLABELS), args=["model"])[0]
+    plain = {t for t, b in zip(DLABELS, fl) if b == "1"}
+    dist["dlabel"] = {"cases": 0, "all-plain": 0, "refused-up-front": 0, "delivered": 0, "violations": 0}
+    for ci, labels in enumerate(combos):
+        for hseed in (0, 7):
+            cd = os.path.join(work, "l%d_%d" % (ci, hseed))
+            os.makedirs(os.path.join(cd, "P", "D"))
+            lrecs = [(t, "line-%d-%s" % (i, j)) for j in ("a", "b") for i, t in enumerate(labels)]
+            data = "".join("%s: %s\n" % r for r in lrecs).encode()
+            env["PERL_HASH_SEED"] = str(hseed)
+            r = observe(os.path.join(cd, "P"), ["-d", "D"], data, "D")
+            cov["evaluations"] += 1
+            dist["dlabel"]["cases"] += 1
+            want = {t: "line-%d-a\nline-%d-b\n" % (i, i) for i, t in enumerate(labels)}
+            case = {"mode": "d", "labels": labels, "hash_seed": hseed, "input_text": data.decode(),
+                    "cmd": "mkdir -p P/D && cd P && PERL_HASH_SEED=%d perl scripts/dshbak -d D < input" % hseed}
+            allplain = all(t in plain for t in labels)
+            dist["dlabel"]["all-plain"] += allplain
+            # what got where: real file (normalised path relative to P) -> content
+            got = {os.path.normpath(kf): v for kf, v in r["files"].items()}
+            bad = None
+            if r["rc"] == 0:
+                # every label must have a file of its own, inside D, holding its lines
+                place = {t: os.path.normpath(os.path.join("D", t)) for t in labels}
+                if len(set(place.values())) < len(labels):
+                    twice = sorted(t for t in labels if list(place.values()).count(place[t]) > 1)
+                    bad = ("shared-file", "labels %r are written to one file: the lines of all but one are lost, exit 0" % twice)
+                elif any(not p.startswith("D" + os.sep) for p in place.values()):
+                    bad = ("outside-DIR", "label %r is written outside DIR" % [t for t in labels if not place[t].startswith("D" + os.sep)])
+                elif any(got.get(place[t]) != want[t] for t in labels):
+                    bad = ("lost", "files %r do not hold their labels' lines" % sorted(got))
+                else:
+                    dist["dlabel"]["delivered"] += 1
+            elif r["rc"] == 1 and "Fatal" in r["err"]:
+                if got:
+                    bad = ("aborted-midway", "exit 1 (%s) after %d of %d files were written" % (r["err"].strip()[-80:], len(got), len(labels)))
+                else:
+                    dist["dlabel"]["refused-up-front"] += 1
+            else:
+                bad = ("crash", "rc=%s %r" % (r["rc"], r["err"][-100:]))
+            if bad:
+                dist["dlabel"]["violations"] += 1
+                if allplain:
+                    ctx.offender("per-file:" + bad[0], bad[1], {"case": case, "files": sorted(got)})
+                else:
+                    ctx.offender("per-file:label-is-a-path:" + bad[0], bad[1], {"case": case, "files": sorted(got)})
+            # correspondence: plain labels -> one file per label (Props/C19 per_file_spec); a repaired script refuses others
+            if allplain and (r["rc"] != 0 or got != {os.path.join("D", t): want[t] for t in labels}):
+                ctx.disagreement("dshbak -d vs model (plain labels)", "labels %r: rc=%s files %r" % (labels, r["rc"], sorted(got)), case)
+            if not allplain and fix_label and (r["rc"] != 1 or got):
+                ctx.disagreement("dshbak -d vs model (label check)", "labels %r: rc=%s files %r" % (labels, r["rc"], sorted(got)), case)
+    shutil.rmtree(work, ignore_errors=True)
+
+
 # ------------------------------------------------------------------ running the real things
 def run_dshbak(script, case, workdir, idx):
     env = {"PATH": "/usr/bin:/bin", "PERL_HASH_SEED": str(case["hash_seed"]), "PERL_PERTURB_KEYS": "0"}
@@ -733,10 +984,15 @@ def run(ctx):
         judge = Judge(ctx, script, pdsh, repaired, limits)
         if ctx.replay:
             j = json.load(open(ctx.replay))
-            cases = [case_from_json(j["case"]["case"] if "case" in j.get("case", {}) else j["case"])]
+            jc = j["case"]["case"] if "case" in j.get("case", {}) else j["case"]
+            if "argv" in jc or "labels" in jc:
+                cases = []              # an option / -d label case: that (small, fixed) part is run as a whole
+                option_cases(ctx, script, judge, cov, {"script_form": ""})
+            else:
+                cases = [case_from_json(jc)]
         else:
             n = 1500 if ctx.quick() else 15000
-            cases = load_corpus()
+            cases = load_corpus() + pinned_cases()
             for i in range(n):
                 stream = rng.choices(["plain", "unterminated", "emptystem", "odd"], [80, 6, 7, 7])[0]
                 cases.append(gen_case(rng, stream))
@@ -759,6 +1015,9 @@ def run(ctx):
                 cov["evaluations"] += 1
                 dist["modes"][c["mode"]] = dist["modes"].get(c["mode"], 0) + 1
                 dist["streams"][c["stream"]] = dist["streams"].get(c["stream"], 0) + 1
+                if c.get("pin"):
+                    pk = c["pin"].split(":")[0]
+                    dist.setdefault("pinned_classes", {})[pk] = dist.setdefault("pinned_classes", {}).get(pk, 0) + 1
                 nh = len({t for t, _ in c["recs"]})
                 dist["hosts_per_case"][str(min(nh, 15))] = dist["hosts_per_case"].get(str(min(nh, 15)), 0) + 1
                 r = res["real"]
@@ -786,6 +1045,8 @@ def run(ctx):
                                                  "oracle": res["oracle"]})
                     else:
                         ctx.disagreement("dshbak model vs scripts/dshbak: " + sig, what, case_json(c))
+        if not ctx.replay:
+            option_cases(ctx, script, judge, cov, dist)
         # F19-LONGRUN on the real pair (cheap), the model on it only in the thorough tier
         if not ctx.replay:
             for nrun in ([16385] if ctx.quick() else [16384, 16385]):
